@@ -96,6 +96,12 @@ impl Check for Controller {
     fn components(&self) -> serde_json::Value {
         serde_json::json!({"real": ["examples/timelock-controller (from source): __check_auth, schedule_op, cancel_op, update_delay, AccessControl", "timelock storage", "access_control storage", "macros"], "stub": ["Wallet for proposer / executor / attacker"]})
     }
+    fn dup_ok(&self, _s: &Step) -> bool {
+        true
+    }
+    fn reorder_ok(&self) -> bool {
+        true
+    }
     fn generate(&self, rng: &mut Rng, tier: Tier) -> (Cfg, std::vec::Vec<Step>) {
         let nops = 2 + rng.below(3) as usize;
         let cfg = Cfg { start_ledger: 2 + rng.below(100_000) as u32, min_delay: 1 + rng.below(20) as u32, with_executors: rng.chance(60), delays: (0..nops).map(|k| [0u32, 3, 40, 7, 1][k % 5] + rng.below(2) as u32 * 100).collect() };
